@@ -193,7 +193,7 @@ Theorem bytes_bounded P hist : Forall (fun p => bytes_ok (ppayload p) /\ nlen (p
 Proof.
   assert (G : forall hist d, InvB P d -> Forall (fun p => bytes_ok (ppayload p) /\ nlen (ppayload p) <= P) hist ->
     InvB P (fst (dec_run d hist)) /\ forall f, In (DFrame f) (snd (dec_run d hist)) -> nlen f <= fixed_part + 130 + (omax + P) + 2).
-  { clear hist. induction hist as [|p t IH]; intros d HB HF; cbn [dec_run]; [cbn; tauto|].
+  { clear hist. induction hist as [|p t IH]; intros d HB HF; cbn [dec_run]; [cbn [fst snd In]; tauto|].
     inversion HF as [|? ? [Hp1 Hp2] Ht]; subst. pose proof HB as [HI _].
     pose proof (dec_facts P d p HI) as F. destruct (dec d p) as [d' r]. destruct F as (_ & _ & F3).
     destruct (F3 Hp1 Hp2 HB) as [HB' Hfr]. specialize (IH d' HB' Ht). destruct (dec_run d' t) as [d'' rs]. cbn [fst snd] in *.
